@@ -8,8 +8,8 @@
 (* the construction operators and the Pop action of LoserTree.tla itself.  *)
 (* Tier A (C06): the source returned is the one with the smallest head     *)
 (* key, the smallest index among equals (what the traversal order of the   *)
-(* container rests on).  Tier B: it is the source in cell 0 of the model's *)
-(* array (the array itself is private, no hook is used).                   *)
+(* container rests on).  Tier B: the private array, logged through hook H5 *)
+(* after every call, equals the model's `losers` cell by cell.             *)
 (***************************************************************************)
 EXTENDS Naturals, Integers, Sequences, FiniteSets, TLC, Json, IOUtils
 Trc == ndJsonDeserialize(IOEnv.TRACE)
@@ -24,6 +24,7 @@ Drift(what) == PrintT(<<"TRACE-DRIFT", l, x, what>>)
 V(ok, prop, what) == IF ok THEN 0 ELSE (IF Viol(prop, what) THEN 1 ELSE 1)
 D(ok, what) == IF ok THEN 0 ELSE (IF Drift(what) THEN 1 ELSE 1)
 
+CellsOf(L, kk) == [i \in 1..(2 * kk) |-> <<L[i - 1].key, L[i - 1].source>>]
 TInit == /\ l = 2 /\ x = -1 /\ n = 1 /\ seqs = [s \in {0} |-> <<0>>] /\ pos = [s \in {0} |-> 2] /\ k = 1
          /\ losers = [i \in 0..1 |-> [key |-> 0, source |-> 0]] /\ phase = "ready" /\ nextIns = 1 /\ insync = FALSE
          /\ nviol = 0 /\ ndrift = 0 /\ cnt = [trees |-> 0, pops |-> 0, ties |-> 0, sources_max |-> 0] /\ done = FALSE
@@ -38,7 +39,7 @@ TBuild ==
   /\ losers' = LT!InitTree(InsAll(LT!Constructed(Ev.n), LT!NextPow2(Ev.n), 0, Ev.seqs), LT!NextPow2(Ev.n))
   /\ insync' = (Ev.min = losers'[0].source)
   /\ nviol' = nviol + V(Ev.min = LT!MinSrc', "C06", "loser_tree_first_min_source_is_not_the_smallest_head_of_the_most_recent_level")
-  /\ ndrift' = ndrift + D(Ev.min = losers'[0].source, "first_min_source_differs_from_the_model_array")
+  /\ ndrift' = ndrift + D(Ev.min = losers'[0].source /\ Ev.cells = CellsOf(losers', k'), "array_after_init_differs_from_the_model")
   /\ cnt' = [cnt EXCEPT !.trees = @ + 1, !.sources_max = IF Ev.n > @ THEN Ev.n ELSE @]
   /\ UNCHANGED <<x, done>>
 \* delete_min_insert(next key of the popped source or nullptr); min_source() unless everything is exhausted (min = -1)
@@ -49,7 +50,7 @@ TPop ==
           /\ LET exhausted == LT!Live' = {} IN
              /\ nviol' = nviol + V(Ev.src = losers[0].source /\ (exhausted => Ev.min = -1) /\ (~exhausted => Ev.min = LT!MinSrc'),
                                    "C06", "loser_tree_min_source_is_not_the_smallest_head_of_the_most_recent_level")
-             /\ ndrift' = ndrift + D(exhausted \/ Ev.min = losers'[0].source, "min_source_differs_from_the_model_array")
+             /\ ndrift' = ndrift + D((exhausted \/ Ev.min = losers'[0].source) /\ Ev.cells = CellsOf(losers', k), "array_after_delete_min_insert_differs_from_the_model")
              /\ insync' = (Ev.src = losers[0].source /\ (exhausted \/ Ev.min = losers'[0].source))
              /\ cnt' = [cnt EXCEPT !.pops = @ + 1,
                                    !.ties = @ + (IF \E t \in LT!Live : t # losers[0].source /\ LT!HeadOf(t) = LT!HeadOf(losers[0].source) THEN 1 ELSE 0)]
